@@ -1,17 +1,19 @@
 """C16 — BLP encode -> parse is exact; lossless encodings preserve pixels (DESIGN.md §6 C16)."""
 import sup
 
-RULE = ("one case = (image size, content class, target, mipmaps on/off, mip filter[, DXT algorithm]). Sizes {1x1,1x2,2x1,3x5,7x8,16x16,17x31,64x1,1x64,255x256,512x512,300x200} "
-        "+ random sizes (non-square powers of two, one side 1..3, around multiples of 4, up to 200); contents {all transparent, opaque (Rgb8 or Rgba8), <=256 colours with "
-        "binary / edge-value / arbitrary alpha, >256 colours noise, gradients}; 25 targets = BLP0/BLP1 x {raw1 x alpha 0/1/4/8, jpeg +-alpha} + BLP2 x {raw1 x 4, raw3, jpeg +-alpha, "
-        "DXT1/3/5 +-alpha}. quick = sizes x targets x mip on/off with content and filter rotating (600) + 300 random-size cases; thorough = sizes x contents x targets x "
-        "(mip off | mip on x {nearest, triangle, lanczos3}) (6000) + 4000 random-size cases with 5 filters and 3 DXT algorithms. Oracle per case: x = image_to_blp(img); "
-        "y = parse_blp(encode_blp(x)) (BLP0: encode_blp0 + parse_blp_with_externals); (a) y == x; (b) with mipmaps the level count and every level's stored byte size / decoded "
-        "dimensions follow halving both sides (never below 1) down to 1x1, count from the larger side; (c) an independent reader of the raw header bytes checks every non-empty "
-        "(offset,size) pair lies inside the file behind the header/palette, pairs pairwise disjoint, one pair per level, each pointing at that level's bytes (BLP0: external file "
-        "sizes); (d) raw3: blp_to_image level 0 == source RGBA exactly; raw1: each decoded colour is in the 256-entry palette read from the file bytes and is the entry its stored "
-        "index selects, decoded alpha is one of the two representable levels neighbouring source*(2^d-1)/255, is a function of the source alpha and monotone; JPEG/DXT: structure "
-        "only. A case is trivial if the converter or encoder refuses the combination (tallied per target). distinct = distinct (target, mip, WxH, content, filter) tuples run.")
+RULE = ("one case = (image size, content class, target, mipmaps on/off, mip filter[, DXT algorithm]); the image itself is drawn from the case's PRNG stream. "
+        "Sizes: the 12 of DESIGN {1x1,1x2,2x1,3x5,7x8,16x16,17x31,64x1,1x64,255x256,512x512,300x200} + {2x2,4x4,8x8,5x7,12x9,33x63,100x127,256x64,8x2,5x1}; contents {all transparent, "
+        "opaque (Rgb8 or Rgba8), <=256 colours with binary / edge-value / arbitrary alpha, >256 colours noise, gradients}; 25 targets = BLP0/BLP1 x {raw1 x alpha 0/1/4/8, jpeg +-alpha} "
+        "+ BLP2 x {raw1 x 4, raw3, jpeg +-alpha, DXT1/3/5 +-alpha}. quick = grid sizes x contents x targets x (mip off | mip on x {nearest, triangle, lanczos3}; one filter for the three "
+        "large sizes) + every shape (w,h) in 1..9 x 1..9 x targets x mip on/off + 3000 random-size cases; thorough = 2 images per grid point with all 5 filters + every shape in "
+        "1..20 x 1..20 + 150000 random-size cases (non-square powers of two up to 512, one side 1..3, around multiples of 4, same-octave non-square, up to 200; 5 filters, 3 DXT "
+        "algorithms). Oracle per case: x = image_to_blp(img); y = parse_blp(encode_blp(x)) (BLP0: encode_blp0 + parse_blp_with_externals); (a) y == x; (b) with mipmaps the number of "
+        "levels of x and y, header.mipmaps_count()/mipmap_size(i), every level's stored byte size and decoded dimensions follow halving both sides (never below 1) down to 1x1, count "
+        "from the larger side; (c) an independent reader of the raw header bytes checks every non-empty (offset,size) pair lies inside the file behind the header/palette/JPEG header, "
+        "pairs pairwise disjoint, one pair per level, each holding exactly that level's bytes (BLP0: external file count and sizes); (d) raw3: blp_to_image level 0 == source RGBA "
+        "exactly; raw1: each decoded colour is in the 256-entry palette read from the file bytes and is the entry its stored index selects, decoded alpha is one of the two "
+        "representable levels neighbouring source*(2^d-1)/255, a function of the source alpha, monotone; JPEG/DXT: structure only. A case is trivial if the converter or encoder "
+        "refuses the combination (tallied per target; none did). distinct = distinct (target, mip, WxH, content, filter) tuples run.")
 ASSUME = [
     "'quantised to the declared depth' is read as: the decoded alpha is the 8-bit expansion of floor or ceil of a*(2^d-1)/255 (this admits floor, round and ceil), the same for equal "
     "source alphas, and monotone. Observed in convert/raw1.rs: 8 bit exact, 4 bit round-to-nearest (expanded as nibble*17), 1 bit 'alpha > 0' (= ceil); counters "
@@ -22,7 +24,10 @@ ASSUME = [
     "an encoder Err of kind InvalidOffset / InvalidMipmapSize on a texture produced by image_to_blp counts as a violation (the converter's own layout is inconsistent); "
     "other converter/encoder errors are refusals and are tallied (convert_refused|*, encode_refused|*)",
     "JPEG and DXT are lossy: only structure (level count, sizes, decodability, decoded dimensions) is checked",
-    "signatures carry the trigger predicates of triaged defects (converter-chain-short, dxt-blocks-by-area<by-dims) so that cases outside those predicates stay strictly checked",
+    "the two triaged defects (known_findings.d/C16.jsonl) are reported once each under a root-cause signature; their downstream consequences are undone on a copy of the parsed "
+    "texture only where the exact shape is present (trailing empty levels beyond the converter's short chain; a DXT level that is the ceil(w*h/16)-block prefix of the encoded "
+    "level; BLP0 MissingImage(k) with k = stored levels) and everything else in those cases is still compared strictly; counters d1_*, d2_*, cases_cut_short_by_known_defect and "
+    "structures_equal_modulo_known_defects say how often",
 ]
 
 
